@@ -208,7 +208,17 @@ def run(ctx):
             forb = any(n.get("k") == "Path" and (n.get("path") or "").endswith("StatusCode::FORBIDDEN") for n in ns)
             cs = [n for n in ns if n.get("k") in ("Call", "MethodCall")]
             empty = any(is_call_to(n, "Default::default", "Full<D>::default", "Empty<D>::new") for n in cs)
-            no_body = not any(is_call_to(n, "PrometheusHandle::render") for n in cs) and not any(n.get("k") == "Lit" and n.get("str") for n in ns)
+            # no text reaches the body: string literals elsewhere on the edge (the message of an `expect` on the builder, of
+            # an assertion) are not content
+            def _msg_only(lit):
+                for c_ in cs:
+                    if c_.get("k") == "MethodCall" and c_.get("name") in ("expect", "unwrap_or_else", "expect_err") and any(x is lit for a_ in (c_.get("args") or []) for x in deep(a_)):
+                        return True
+                    if is_foreign_exp(c_.get("exp")) and any(x is lit for x in deep(c_)):
+                        return True
+                return is_foreign_exp(lit.get("exp"))
+
+            no_body = not any(is_call_to(n, "PrometheusHandle::render") for n in cs) and not any(n.get("k") == "Lit" and n.get("str") and not _msg_only(n) for n in ns)
             return forb and empty and no_body
 
         n_render = sum(1 for n in deep(h) if n.get("k") in ("Call", "MethodCall") and is_call_to(n, "PrometheusHandle::render"))
